@@ -8,8 +8,10 @@ def rules_for(prog, res):
     c03.run_a(prog, res, cg, prop="C09", only={"simplify", "usedp"})
     c03.run_a_functions(prog, res, prop="C09", units=("simplify.c",))
     c09.run_b(prog, res)
+    c09.run_b2(prog, res)
     c09.run_c(prog, res)
     c09.run_d(prog, res)
+    c09.run_e(prog, res)
 
 
 def run(res, tier, replay=None):
@@ -20,15 +22,17 @@ def run(res, tier, replay=None):
     res.explanation = (
         "C09 structural clauses on the simplification pass: (a) simplify and usedp (which decides rest-parameter elision) "
         "visit every sub-AST field of the node types they dispatch on; (b) kind-set dataflow: the literal replacing a folded "
-        "application is built only where the fold result cannot be an exception, and the fold uses sexp_apply_no_err_handler; "
+        "application is built only where the fold result cannot be an exception, and the fold uses sexp_apply_no_err_handler, which clears every handler source it saves (thread parameters, global handler cell) before applying; "
         "(c) the push onto the substitution list is dominated by the `not assigned` (memq name sv == #f) edge; (d) taint: neither a value unwrapped from a literal node nor a result of the unchecked fixnum macros reaches "
-        "an AST slot or the returned AST - the simplifier folds through the VM only and keeps quoted data wrapped. Not decided: "
+        "an AST slot or the returned AST - the simplifier folds through the VM only and keeps quoted data wrapped. (e) where simplify / the code generator / analyze ask whether a variable is assigned, the name is paired with the set-variable list of the lambda that binds it (a reference's own location, the lambda whose parameter list the name was taken from). Not decided: "
         "equality of results across builds as such; the portable 128-bit arithmetic (numerical).")
     if tier == "thorough":
         common.thorough_mutations(res, "C09", {
             "C09.a": lambda p, r: (c03.run_a(p, r, None, prop="C09", only={"simplify", "usedp"}),
                                    c03.run_a_functions(p, r, prop="C09", units=("simplify.c",))),
             "C09.b": lambda p, r: c09.run_b(p, r),
+            "C09.b2": lambda p, r: c09.run_b2(p, r, floor=0),
             "C09.c": lambda p, r: c09.run_c(p, r),
             "C09.d": lambda p, r: c09.run_d(p, r, floor=0),
+            "C09.e": lambda p, r: c09.run_e(p, r, floor=0),
         })
